@@ -658,7 +658,7 @@ func checkPegCombinators(r *Run, prog *Program, pfx string) {
 				}
 				if ev.Store && ev.Args[0].K == sFieldAddr && ev.Args[0].Str == "text" {
 					if f, _ := calleeOfSym(ev.Args[1]); f == e.sliceFrom {
-						if se := eventOf(sm.St, ev.Args[1]); se != nil && se.Instr != nil && len(se.Instr.Common().Args) == 2 && entrySavepoint(fn, se.Instr.Common().Args[1]) && eventIndex(sm, se) > eventIndex(sm, c.ev) {
+						if se := eventOf(sm.St, ev.Args[1]); se != nil && se.Instr != nil && len(se.Instr.Common().Args) == 2 && fromEntrySavepoint(fn, se.Instr.Common().Args[1]) && eventIndex(sm, se) > eventIndex(sm, c.ev) {
 							textOK = true
 						}
 					}
@@ -908,7 +908,7 @@ func (e *pegEngine) checkLiteral(r *Run, rule string, report func(string, *ssa.F
 			sawOK = true
 			if f, _ := calleeOfSym(unwrapIface(sm.Results[0])); f != e.sliceFrom {
 				probs = append(probs, "the value of a matched literal is the text consumed"+trailOf(sm))
-			} else if se := eventOf(sm.St, unwrapIface(sm.Results[0])); se == nil || se.Instr == nil || !entrySavepoint(fn, se.Instr.Common().Args[1]) {
+			} else if se := eventOf(sm.St, unwrapIface(sm.Results[0])); se == nil || se.Instr == nil || !fromEntrySavepoint(fn, se.Instr.Common().Args[1]) {
 				probs = append(probs, "the text of a matched literal does not start where the literal started"+trailOf(sm))
 			}
 			if len(callsOf(sm, e.restore)) != 0 {
@@ -1298,6 +1298,9 @@ func (e *pegEngine) checkPositionPrimitives(r *Run, rule string, report func(str
 			n++
 			res := sm.Results[0]
 			lo := (&Sym{K: sField, A: &Sym{K: sField, A: st, Str: "position"}, Str: "offset"}).Key()
+			if namedIs(fn.Params[1].Type(), grammarPath, "position") {
+				lo = (&Sym{K: sField, A: st, Str: "offset"}).Key() // handed the position itself
+			}
 			hi := loadField(p, "pt", "position", "offset").Key()
 			if !(res.K == sSlice && res.A != nil && res.A.Key() == loadField(p, "data").Key() && res.Str == lo+":"+hi) {
 				probs = append(probs, "sliceFrom must return data[start.offset : current offset]; got "+shortKey(res)+trailOf(sm))
